@@ -132,6 +132,26 @@ Theorem C14_rows_checker_iff :
 Proof. exact check_rowsb_iff. Qed.
 Print Assumptions C14_rows_checker_iff.
 
+(* empirical joint degree distribution of a network: P(k) = #{v annotated k} / N, for every network *)
+Theorem C14_jdd_from_network : forall g : net, dict_close 0 (jdd_from_network g) (spec_jdd g).
+Proof. exact jdd_from_network_spec. Qed.
+Print Assumptions C14_jdd_from_network.
+
+Theorem C14_jdd_checker_iff : forall eps g obs, check_jddb eps g obs = true <-> dict_close eps obs (spec_jdd g).
+Proof. exact check_jddb_iff. Qed.
+Print Assumptions C14_jdd_checker_iff.
+
+(* splitting matrix keys into halves *)
+Theorem C14_split_checker_iff : forall M obs, check_splitb M obs = true <-> C14_split_spec M obs.
+Proof. exact check_splitb_iff. Qed.
+Print Assumptions C14_split_checker_iff.
+
+Theorem C14_model_satisfies_split_spec :
+  forall ejks name M, In (name, M) ejks ->
+    exists ks, In (name, ks) (xkeys_from_ejks ejks) /\ C14_split_spec M ks.
+Proof. exact model_split_satisfies. Qed.
+Print Assumptions C14_model_satisfies_split_spec.
+
 Theorem C14_model_satisfies_forward_spec :
   forall P, valid_jdd P -> mean_defined P -> exists qs, forward P = Ok qs /\ C14_forward_spec 0 P qs.
 Proof. exact model_forward_satisfies. Qed.
